@@ -547,7 +547,89 @@ def rule_g(ctx, out):
                     "a load ordered after a pending store can then be emitted first", where(f, c))
 
 
+def rule_h(ctx, out):
+    """The order in which greedy emits the memory (storage) operations respects every declared dependence.  sort_with_deps is
+    evaluated abstractly on every transitively reduced dependence relation over up to two loads and three stores in every program
+    order: every operation is scheduled exactly once (loads possibly deferred after the last store), and for every dependence (x, y),
+    x comes before y — in particular no load that must precede a store is deferred."""
+    import itertools
+    from ..core.interp import ModuleInterp
+    from ..core.minieval import Unsupported, Raised
+    f = ctx.func(f"{GREEDY}.sort_with_deps")
+    mi = ModuleInterp(ctx, max_steps=400000)
+
+    def closure(pairs):
+        R = set(pairs)
+        changed = True
+        while changed:
+            changed = False
+            for (a, b) in list(R):
+                for (c, d) in list(R):
+                    if b == c and (a, d) not in R:
+                        R.add((a, d))
+                        changed = True
+        return R
+
+    def reduction(R):
+        nodes = {x for p_ in R for x in p_}
+        return {(a, b) for (a, b) in R if not any((a, c) in R and (c, b) in R for c in nodes)}
+    sizes = ((1, 1), (1, 2), (2, 1), (2, 2), (1, 3), (2, 3)) if ctx.tier == "thorough" else ((1, 1), (1, 2), (2, 1), (2, 2), (1, 3))
+    seen, n = set(), 0
+    for kind, ld, st in (("memory", "MLOAD", "MSTORE"), ("storage", "SLOAD", "SSTORE")):
+        if kind == "storage" and ctx.tier != "thorough":
+            continue
+        for nl, ns in sizes:
+            loads = [f"{ld}_{k}" for k in range(nl)]
+            stores = [f"{st}_{k}" for k in range(ns)]
+            for order in sorted(set(itertools.permutations(["L"] * nl + ["S"] * ns))):
+                li, si = iter(loads), iter(stores)
+                seq = [next(li) if c == "L" else next(si) for c in order]
+                cands = [(i, j) for i in range(len(seq)) for j in range(i + 1, len(seq)) if not (seq[i].startswith(ld) and seq[j].startswith(ld))]
+                for mask in range(1 << len(cands)):
+                    red = frozenset(reduction(closure({(seq[i], seq[j]) for k, (i, j) in enumerate(cands) if mask >> k & 1})))
+                    if (tuple(seq), red) in seen:
+                        continue
+                    seen.add((tuple(seq), red))
+                    deps = [list(p_) for p_ in sorted(red)]
+                    opid = {x: ({"outpt_sk": [f"v{x}"], "inpt_sk": ["a" + x]} if x.startswith(ld) else {"outpt_sk": [], "inpt_sk": ["a" + x, "b" + x]}) for x in seq}
+                    varmap = {f"v{x}": {"inpt_sk": ["a" + x]} for x in loads}
+                    n += 1
+                    try:
+                        res = mi.call(f, list(stores), deps, opid, varmap)
+                    except Raised as e:
+                        out.bad(f"memory-order:{kind}:raises", f"sort_with_deps raises {e.what} for the program order {seq} with dependences {deps}", where(f))
+                        continue
+                    except Unsupported as e:
+                        raise AnalysisError(f"sort_with_deps: cannot evaluate abstractly: {e}")
+                    if not (isinstance(res, tuple) and len(res) == 2):
+                        out.bad(f"memory-order:{kind}:result-shape", f"sort_with_deps returns {res!r}", where(f))
+                        continue
+                    scheduled = list(res[0]) + list(res[1])
+                    need = set(stores) | {x for p_ in deps for x in p_}
+                    prob = None
+                    if len(set(scheduled)) != len(scheduled):
+                        prob = ("scheduled-twice", "an operation is scheduled twice")
+                    elif not need <= set(scheduled):
+                        prob = ("not-scheduled", f"{sorted(need - set(scheduled))} is not scheduled")
+                    else:
+                        for a, b in deps:
+                            if scheduled.index(a) > scheduled.index(b):
+                                deferred = a in res[1]
+                                prob = ("load-deferred-past-its-store" if deferred else "dependence-reversed", f"{a} must precede {b} but is "
+                                        + ("deferred until after the last store" if deferred else "scheduled after it"))
+                                break
+                    if prob is None:
+                        out.ok()
+                    else:
+                        out.bad(f"memory-order:{kind}:{prob[0]}", f"sort_with_deps, program order {seq}, dependences {deps}: {prob[1]} (order {list(res[0])}, deferred {list(res[1])})",
+                                where(f), {"program_order": seq, "dependences": deps})
+    out.samples.append({"dependence_relations_evaluated": n})
+    if n < 300:
+        raise AnalysisError(f"only {n} dependence relations evaluated")
+
+
 RULES = [
+    ("C04.h", "the memory/storage schedule respects every dependence", 300, rule_h),
     ("C04.g", "loads ordered after the last store are released only when no store is pending", 2, rule_g),
     ("C04.f", "extremes over dependences are taken over all of them", 2, rule_f),
     ("C04.e", "boolean record fields are read by value; swapped operands need the flag", 10, rule_e),
